@@ -626,6 +626,7 @@ def spec_search(ctx, shim, model, r, nfonts):
         hexf, rec, chains = font_case(r, (kind,), nchains=1, max_sub=1, wf=True)
         for _ in range(6):
             n = r.range(1, 8)
+            if kind == 2 and r.chance(1, 3): n = r.range(60, 200)     # long enough for the component stack to pass 64
             gs = ",".join(f"{r.below(NG)}:{i}" for i in range(n))
             d = r.choice(["l", "l", "r", "t"])
             mo = "-" if kind != 5 else str(r.choice([20, 60, 200]))
@@ -667,7 +668,7 @@ def spec_search(ctx, shim, model, r, nfonts):
         else:
             dist[kn + ":agree"] = dist.get(kn + ":agree", 0) + 1
     ctx.note_search("morx-spec", total, nontriv, distribution=dist,
-                    rule="well-formed single-subtable fonts x glyph strings <= 8 x 3 directions; crate through the "
+                    rule="well-formed single-subtable fonts x glyph strings <= 8 (ligature: a third of the strings 60-200 glyphs) x 3 directions; crate through the "
                          "substitute hook vs Spec/Aat reference interpreter; non-trivial = inside the reference's domain "
                          "and no crash")
 
@@ -1083,6 +1084,16 @@ def env_cases(r, nfonts, per_font=3, nenv=3):
     for it in range(nfonts):
         with_feat = r.chance(1, 3)
         chains = deleting_chains(r, with_ins=(it % 4 == 0))
+        ls_info = None
+        if it % 6 == 5:
+            # a stack-machine ligature subtable (component stack deeper than the 64 remembered positions), alone or in front
+            # of a non-contextual subtable that deletes
+            st, ls_info = stack_subtable(r)
+            subs = [st]
+            if r.chance(1, 3):
+                subs.append({"kind": 4, "coverage": 0x20, "flags": 1, "lookup": identity_lookup(r, deleting_subst(r))})
+            chains = [{"default": 1, "features": [], "subtables": subs}]
+            with_feat = False
         morx, tok = build_morx(r, chains, NG)
         feat_rows = rand_feat_table(r) if with_feat else None
         feat = build_feat(feat_rows) if feat_rows is not None else None
@@ -1098,6 +1109,9 @@ def env_cases(r, nfonts, per_font=3, nenv=3):
             n = r.range(1, 8)
             pool = [r.range(1, NG - 1) for _ in range(r.range(1, 4))] if r.chance(1, 2) else list(range(1, NG))
             gl = [r.choice(pool) for _ in range(n)]
+            if ls_info is not None:
+                gl = stack_text(r, ls_info, maxlen=r.choice([70, 100, 140]))[0] or gl
+                n = len(gl)
             cl = env_clusters(r, n)
             d = r.choice(["l", "l", "r", "r", "t", "b"])
             level = r.choice([0, 0, 1, 2])
@@ -1268,7 +1282,8 @@ def env_search(ctx, shim, cases):
                     rule="generated well-formed morx tables in which deletion is frequent (non-contextual / contextual lookups "
                          "mapping to 0xFFFF, ligatures, plus rearrangement and - every 4th font - insertion), each text on the "
                          "bare morx font and on 3 environments drawn from GSUB (none / no features / ccmp single substitution) x "
-                         "GPOS (none / no features / kern pairs / mark-feature adjustment) x kerx x kern x GDEF; strings <= 8 over "
+                         "GPOS (none / no features / kern pairs / mark-feature adjustment) x kerx x kern x GDEF; every 6th font a stack-machine "
+                         "ligature subtable with texts of 70-140 glyphs (component stack deeper than 64); otherwise strings <= 8 over "
                          "the PUA alphabet, 4 directions, 3 levels, ascending / gapped / repeated clusters, 0-2 user features on "
                          "fonts with feat; oracles: no 0xFFFF in the output, glyph ids = substitute hook minus deleted glyphs "
                          "(horizontal text or no GSUB; else = input through the GSUB substitution), glyph ids independent of the "
